@@ -7,6 +7,7 @@ import Skglm.Model.GramCD
 import Skglm.Model.ProxNewtonDir
 import Skglm.Model.GroupProxNewton
 import Skglm.Model.FISTA
+import Skglm.Model.LBFGS
 /-
   Driver operations for the block coordinate-descent moves (GroupBCD), the prox-Newton backtracking
   line search and the Cox sweeps.
@@ -144,6 +145,12 @@ def solverOps (op : String) : Option (P String) :=
       let F : FistaProb Float n p := { X := P.X, y := P.y, sw := P.sw, df := P.df, pen := P.pen, wts := P.wts, L := L }
       let r := F.solve false tol k (if hasInit then some w0 else none)
       pure (" ".intercalate ([fmtVec r.1.w, fmtE r.2.1, " ".intercalate (r.2.2.map fmtE)].filter (· ≠ "")))
+  | "lbfgs_at" => some do   -- objective, stop criterion, jac (dense) and stop criterion, jac (CSC) at a point
+      let d ← pDF; let n ← pNat; let p ← pNat; let X ← pMatNP n p; let M ← pCSC n p
+      let sw ← pVecN n; let y ← pVecN n; let alpha ← pFloat; let w ← pVecN p
+      let P : LbfgsProb Float n p := { X := X, y := y, sw := sw, df := d, alpha := alpha }
+      pure (fmt (P.lbfgsObjective w) ++ " " ++ fmt (P.lbfgsStop w) ++ " " ++ fmt (P.lbfgsObjectiveSparse M w) ++ " " ++
+            fmt (P.lbfgsStopSparse M w) ++ " " ++ fmtVec (P.lbfgsJac w) ++ " " ++ fmtVec (P.lbfgsJacSparse M w))
   | "pn_grad" => some do
       let ⟨n, p, P⟩ ← pProb; let s ← pState n p
       pure (fmtVec (P.pnGrad s.Xw))
